@@ -51,3 +51,23 @@ Example C05_repaired :
   run_eg5 true c05_case = Lst [Sym "obs"; Lst [Sym "res"; Sym "ok"]; Lst [Sym "p"; Num 1; Sym "true"; Sym "true"];
                               Lst [Sym "mp"; Num 1; Sym "true"; Sym "true"; Sym "true"]].
 Proof. vm_compute. reflexivity. Qed.
+
+(* second session (EGraph/MatchFacts.v, KidsFacts.v, MatchLookup.v): every invocation bound by a returned substitution
+   covers its class (for every reachable state; premise on the pattern's slot names as in C15), and a VERIFIED
+   executable checker for the main clause: if matches_okb s p holds then every returned substitution's instance is found
+   by the read-only lookup and is equal to the class the match was found in.  The checker is what the machine eg5
+   evaluates for every pattern of every explored state; for depth-one patterns the lookup part is proved outright
+   (MatchLookup.depth_one_found_closed, under two tested structural hypotheses). *)
+From SE Require Import EGraph.AddCoversFacts EGraph.MatchDefs EGraph.Mod4Facts EGraph.ProgressFacts EGraph.MatchFacts EGraph.MatchLookup.
+
+Theorem C05_bound_invocations_cover_their_classes : forall p s l s',
+  inv3 s -> kids_ok s -> m4 s -> pat_pre (Model.ctr s) p -> ematch_all p s = Ok (l, s') -> List.Forall (sub_cov s') l.
+Proof. exact ematch_all_covers. Qed.
+Print Assumptions C05_bound_invocations_cover_their_classes.
+
+Theorem C05_checked_matches_are_represented : forall s p, matches_okb s p = true ->
+  forall l s', ematch_all p s = Ok (l, s') -> forall sb, List.In sb l ->
+  exists r a, mr_sb r = sb /\ List.In (mr_id r) (ids s) /\
+    lookup_pat s' p sb = Ok (Some a) /\ eg_eq s' a (mr_root r) = Ok true.
+Proof. exact matches_okb_sound. Qed.
+Print Assumptions C05_checked_matches_are_represented.
